@@ -277,6 +277,14 @@ func (o *moneyOracle) c04(e *Env, si *StepInfo) {
 func (o *moneyOracle) c05(e *Env, si *StepInfo) {
 	t := e.T
 	prev, cur := si.Prev, si.Cur
+	// an accepted cancel ends the order: it is refunded once and is gone afterwards
+	if si.Kind == "tx" && si.OK && si.Op != nil && si.Op.K == "cancel" && si.Built != nil {
+		if mc, ok := si.Built.Msgs[0].(*saotypes.MsgCancel); ok {
+			if _, still := cur.Order.Orders[mc.OrderId]; still {
+				o.once(e, "C05", "C05.gone", stepLabel(si), "cancelled-order-still-exists", fmt.Sprint(mc.OrderId), fmt.Sprintf("cancel of order %d was accepted (refund paid) but the order still exists and can be cancelled again", mc.OrderId))
+			}
+		}
+	}
 	if prev.Order == cur.Order {
 		return
 	}
